@@ -98,7 +98,10 @@ class ApplicationFileScanner:
         sorted_files_to_parse = sorted(files_to_parse)
         LOGGER.info("Number of files found: %d", len(sorted_files_to_parse))
         did_only_list_files = ApplicationFileScanner.__handle_main_list_files(
-            only_list_files, sorted_files_to_parse, handle_output, handle_error
+            only_list_files,
+            [] if did_error_scanning_files else sorted_files_to_parse,
+            handle_output,
+            handle_error,
         )
         return sorted_files_to_parse, did_error_scanning_files, did_only_list_files
 
